@@ -25,7 +25,7 @@ FAMILIES = ['ConstantFunction', 'Identity', 'Monomial', 'Legendre', 'Sin', 'Cos'
 def tasks(tier, seed):
     out = []
     k = 0
-    n = 6 if tier == 'quick' else 40
+    n = 6 if tier == 'quick' else common.thorough(40)
     for fam in FAMILIES:
         for rep in range(n):
             k += 1
